@@ -314,6 +314,9 @@ func (g *TemplateGenerator) typeParams(ctx context.Context, tparams *types.TypeP
 		if err != nil {
 			return nil, err
 		}
+		// Type parameters are never renamed: the signatures refer to them by
+		// their declared name.
+		v.Name = tp.Obj().Name()
 		tpd[i] = template.TypeParam{
 			Param:      template.Param{Var: v},
 			Constraint: explicitConstraintType(typeParam),
